@@ -51,8 +51,26 @@ fn parses(text: &str) -> bool {
 fn gen_config(rng: &mut Rng) -> (Option<String>, Vec<String>, &'static str) {
     let codes = ["undeclared-fixture", "scope-mismatch", "circular-dependency"];
     let mut listed: Vec<String> = codes.iter().filter(|_| rng.chance(400)).map(|s| s.to_string()).collect();
-    match rng.below(8) {
+    match rng.below(9) {
         0 | 1 => (None, vec![], "absent"),
+        8 => {
+            // repeated and unknown entries: the list is a set of codes, its length means nothing
+            if listed.is_empty() {
+                listed.push(rng.pick(&codes).to_string());
+            }
+            if listed.len() == 3 {
+                listed.remove(rng.below(3));
+            }
+            let mut l = listed.clone();
+            for _ in 0..rng.range(1, 3) {
+                let x = rng.pick(&listed).clone();
+                l.insert(rng.below(l.len() + 1), x);
+            }
+            if rng.chance(600) {
+                l.insert(rng.below(l.len() + 1), "bogus-code".to_string());
+            }
+            (Some(format!("[tool.pytest-language-server]\ndisabled_diagnostics = {:?}\n", l)), listed, "duplicate-codes")
+        }
         2 | 3 => {
             // equivalent TOML spellings of the same table
             let toml = match rng.below(6) {
@@ -115,7 +133,7 @@ impl Scenario for Diag {
         o.file.in_class = false;
         o.max_dirs = 3;
         o.n_names = rng.range(2, 4);
-        o.imports = rng.chance(250);
+        o.imports = rng.chance(400);
         o.colliding_imports = false;
         o.dep_cycles = rng.chance(500);
         o.self_dep_per_mille = 250;
@@ -125,7 +143,8 @@ impl Scenario for Diag {
             spec.extra.push(("pyproject.toml".to_string(), t));
         }
         let names = names_pool(o.n_names);
-        let files: Vec<String> = spec.files.iter().filter(|f| f.rel.ends_with("conftest.py") || f.items.iter().any(|i| matches!(i, Item::Test(_)))).map(|f| f.rel.clone()).collect();
+        // documents the editor touches: tests, conftests and the helper modules conftests import
+        let files: Vec<String> = spec.files.iter().filter(|f| f.rel.ends_with(".py") && !f.rel.ends_with("__init__.py") && !f.rel.starts_with('.')).map(|f| f.rel.clone()).collect();
         let mut ops = vec![];
         let mut opened: BTreeSet<String> = BTreeSet::new();
         let mut cur: BTreeMap<String, String> = spec.files.iter().map(|f| (f.rel.clone(), render(&f.items).text)).collect();
@@ -137,14 +156,16 @@ impl Scenario for Diag {
                 break;
             }
             let f = rng.pick(&files).clone();
-            let is_test = !f.ends_with("conftest.py");
+            let is_test = spec.file(&f).map(|pf| pf.items.iter().any(|i| matches!(i, Item::Test(_)))).unwrap_or(false);
+            let keep_imports: Vec<Item> = spec.file(&f).map(|pf| pf.items.iter().filter(|i| matches!(i, Item::Star { .. } | Item::Import { .. } | Item::Plugins { .. })).cloned().collect()).unwrap_or_default();
             let text = match rng.below(10) {
                 0 => cur[&f].clone(),
                 1 => break_syntax(&mut rng, &cur[&f]),
                 2 => last_valid[&f].clone(),
                 3 => "import pytest\n".to_string(),
                 _ => {
-                    let mut items = gen_items(&mut rng, &names, is_test, &go);
+                    let mut items = if rng.chance(850) { keep_imports.clone() } else { vec![] };
+                    items.extend(gen_items(&mut rng, &names, is_test, &go));
                     // make undeclared uses likely: bodies mention pool names
                     for it in items.iter_mut() {
                         if let Item::Test(t) = it {
